@@ -11,7 +11,7 @@ CONSTANTS
   Sp0 = 4
   AllowRelu = FALSE
   AllowPool = FALSE
-  AllowAdd = TRUE
+  AllowAdd = FALSE
   AllowDw = FALSE
   AllowReuse = FALSE
   PMs = {"zeros"}
